@@ -91,6 +91,7 @@ type extOp struct {
 	Aliases int // 0, 1 or 2 aliases
 	Dup     bool // register under the shared name "x/dup" instead of a fresh one
 	AliasBuiltin bool // the first alias is "text/html", a name a built-in format already carries
+	ExtXML       bool // the file extension is ".xml", which a built-in format already uses
 	Same    bool // register under the MIME string of the attachment point (new extension only, like .aaf under application/octet-stream's namesake)
 }
 
@@ -174,6 +175,9 @@ func (t *treeModel) apply(op extOp) {
 		name = "x/dup"
 	}
 	ext := fmt.Sprintf(".e%d", k+1)
+	if op.ExtXML {
+		ext = ".xml"
+	}
 	backing := make([]string, op.Aliases+2)
 	for a := 0; a < op.Aliases; a++ {
 		backing[a] = fmt.Sprintf("x/e%d-alias%d", k+1, a+1)
